@@ -192,6 +192,25 @@ def c09_run(ctx):
         server_rt(ctx)
 
 
+def ledger_attribute(ctx, exlines, badrel, module, cfg):
+    """a datagram that arrived although the deletion of its authority had been announced before it was sent"""
+    import json as _json
+    at = _json.loads(exlines[badrel]).get("at")
+    return {"arrive@%s" % at}, ({"C02", "C15"} if at == "client" else {"C01", "C15"})
+
+
+def ledger_rt(ctx):
+    ctx.trace_validate("ledger-rt", "TestLedgerRT", "TraceLedgerRT.tla", "TraceLedgerRT.cfg", 1 if ctx.tier == "quick" else 8, attribute=ledger_attribute)
+
+
+def with_ledger_rt(run):
+    def f(ctx):
+        run(ctx)
+        if not ctx.violations:
+            ledger_rt(ctx)
+    return f
+
+
 def clientconn_attribute(ctx, exlines, badrel, module, cfg):
     """TraceClientConn.tla is C13's specification; a rejected wire event that carries application data (a payload on the
     wrong channel, an altered or duplicated payload) contradicts C05 as well."""
@@ -220,7 +239,7 @@ def c18_run(ctx):
         k = 1 if ctx.tier == "quick" else 6
         ctx.race_drive("server-rt", "TestServerRT", 2 * k)
         ctx.race_drive("clienttxn-rt", "TestClientTxnRT", 4 * k)
-        ctx.race_drive("clientconn-rt", "TestClientConnRT", k, env={"VERIF_RT_ROUNDS": 10})
+        ctx.race_drive("clientconn-rt", "TestClientConnRT", k, env={"VERIF_RT_ROUNDS": 8, "VERIF_RT_WRITERS": 8})
 
 
 def c05_run(ctx):
@@ -243,10 +262,10 @@ def c14_run(ctx):
 
 PROPS = {
     "C01": dict(title="client data leaves only toward authorised peers", level="model_checking",
-                run=with_server_trace(core_run(["MC_relay", "MC_relayB", "MC_tcp", "MC_iso"], ["GEN_relayA", "GEN_relayB", "GEN_relayD", "GEN_v6", "GEN_tcpB", "GEN_iso", "GEN_stream"])),
+                run=with_ledger_rt(with_server_trace(core_run(["MC_relay", "MC_relayB", "MC_tcp", "MC_iso"], ["GEN_relayA", "GEN_relayB", "GEN_relayD", "GEN_v6", "GEN_tcpB", "GEN_iso", "GEN_stream"]))),
                 assumptions=BASE_ASSUME + ["the TCP connect target clause is decided on TurnTCP.tla (Connect to a vetoed peer: 403, no connection)"]),
     "C02": dict(title="only authorised peers reach the client", level="model_checking",
-                run=with_server_trace(core_run(["MC_relay", "MC_relayB", "MC_v6", "MC_tcp"], ["GEN_relayA", "GEN_relayB", "GEN_relayD", "GEN_v6", "GEN_tcpA", "GEN_recycle"])),
+                run=with_ledger_rt(with_server_trace(core_run(["MC_relay", "MC_relayB", "MC_v6", "MC_tcp"], ["GEN_relayA", "GEN_relayB", "GEN_relayD", "GEN_v6", "GEN_tcpA", "GEN_recycle"]))),
                 assumptions=BASE_ASSUME + ["the TCP clause (a peer connection is announced only with a live permission for its source IP, else closed silently) is decided on TurnTCP.tla"]),
     "C03": dict(title="state changes only with valid long-term credentials", level="model_checking",
                 run=core_run(["MC_auth", "MC_noauth", "MC_nonce"], ["GEN_auth", "GEN_noauth", "GEN_nonce", "GEN_users", "GEN_tcpB"]),
@@ -316,7 +335,7 @@ PROPS = {
                              "'at once' is read as: at once on a loss-free network, and within one transaction (8 s) when transmissions are lost",
                              "'any number of peers' is not explored (4 peers); with several hundred peers the permission refresh exceeds the server's inbound MTU (observation D13 in DESIGN.md)"]),
     "C15": dict(title="server resources and lifecycle events balance through every teardown", level="model_checking",
-                run=core_run(["MC_life", "MC_tcp", "MC_steps", "MC_resv", "MC_reaper"], ["GEN_lifeA", "GEN_lifeB", "GEN_tcpB", "GEN_steps", "GEN_resv", "GEN_stream", "GEN_reaper", "GEN_reaperS"]),
+                run=with_ledger_rt(core_run(["MC_life", "MC_tcp", "MC_steps", "MC_resv", "MC_reaper"], ["GEN_lifeA", "GEN_lifeB", "GEN_tcpB", "GEN_steps", "GEN_resv", "GEN_stream", "GEN_reaper", "GEN_reaperS"])),
                 assumptions=BASE_ASSUME + ["after every step the lifecycle callbacks made during the step are compared with the spec's EvDiff (created/deleted events per allocation, permission, channel), "
                                            "the relay sockets handed out by the harness generator with the live allocations (open count, closed at most once)",
                                            "every path ends with Server.Close followed by a two-hour drain: created - deleted must be 0 for every key, AllocationCount 0, every relay socket closed, and no lifecycle event may arrive late (a timer that outlived its allocation); "
